@@ -334,4 +334,12 @@ Next == \/ Drain \/ EnterWait \/ WakePull \/ WakeTimeout \/ PullTake \/ ExtCance
         \/ \E m \in ExtMenu : ExtSend(m)
 Spec == Init /\ [][Next]_vars
 
+(* liveness: the loop keeps running its internal actions, step bodies eventually finish, time eventually passes; *)
+(* external sends and cancels are not fair (the environment may never act)                                      *)
+FairSpec == Spec /\ WF_vars(Internal) /\ WF_vars(\E t \in tasks : WorkerFinish(t)) /\ WF_vars(Advance)
+(* nothing can happen any more without new external input *)
+NeedsInput == Live /\ Quiescent /\ tasks = {} /\ wake = {} /\ mailbox = <<>>
+(* C03 as liveness: accepted work never stalls -- every run ends or reaches a point where only external input helps *)
+Live_Progress == <>(outcome # "none" \/ NeedsInput)
+
 =============================================================================
